@@ -20,9 +20,22 @@ pub fn dropped_result<W: Write>(w: &mut W) {
     let _ = w.write_all(b"x");
 }
 
-/// C07.R2: a byte-order conversion on the write path.
+/// C07.R2: a byte-order conversion on the write path (reached from a function of a `serialize` module, as the rule's
+/// call-graph restriction requires; `reversed_bytes` below is the same call off that path and must not be reported).
 pub fn big_endian(v: u64) -> [u8; 8] {
     v.to_be_bytes()
+}
+
+pub mod serialize {
+    /// Writes one element -- in the wrong byte order.
+    pub fn write_element(v: u64, out: &mut Vec<u8>) {
+        out.extend_from_slice(&super::big_endian(v));
+    }
+}
+
+/// Not on the write path: a bit trick spelled with byte conversions.
+pub fn reversed_bytes(v: u64) -> u64 {
+    u64::from_le_bytes(v.to_be_bytes())
 }
 
 /// C08.R1: an unsafe call in a safe function with no guard.
